@@ -11,8 +11,8 @@
    * two functions share a name in Spanish (XNPV, RECEIVED: VNA.NO.PER) and in French
      (TBILLEQ, YIELDDISC: TAUX.ESCOMPTE.R); the first-match lookup returns the other function
      -> C23_functions_refuted, C23_no_shared_name_refuted; everything else: …_partial / …_exact
-   * Error::NIMPL is displayed (formulas, xlsx files) as "#N/IMPL", which no reader accepts
-     -> C23_error_display_refuted; the other eleven errors: C23_error_display_partial
+   * (F01, Error::NIMPL displayed as "#N/IMPL", is repaired in /repo 4a681a0: C23_error_display is
+     now the full statement)
    * error literals inside formulas are printed with Display (English) in every language, so
      e.g. Spanish =#¡REF! is shown as =#REF!, which Spanish does not read back
      -> C23_error_literal_refuted / C23_error_literal_exact *)
@@ -103,23 +103,13 @@ Proof. exact error_by_name_roundtrip. Qed.
 Print Assumptions C23_errors_by_name.
 
 (* ---- errors: the name written to xlsx files (Display) read by get_error_by_english_name ---- *)
-(* full statement [forall e, english_lookup (display e) = Some e] is FALSE for NIMPL *)
-Theorem C23_error_display_refuted :
-  display E_NIMPL = [35; 78; 47; 73; 77; 80; 76] /\ english_lookup (display E_NIMPL) = None.
-Proof. exact display_refuted. Qed.
-Print Assumptions C23_error_display_refuted.
+(* full statement, 12 of 12 errors (F01 was repaired in /repo 4a681a0: #N/IMPL! with the mark) *)
+Theorem C23_error_display :
+  forall e, (e < n_err)%nat -> english_lookup (display e) = Some e.
+Proof. exact display_all. Qed.
+Print Assumptions C23_error_display.
 
-Theorem C23_error_display_exact :
-  forall e, (e < n_err)%nat -> (english_lookup (display e) = Some e <-> e <> E_NIMPL).
-Proof. exact display_exact. Qed.
-Print Assumptions C23_error_display_exact.
-
-Theorem C23_error_display_partial :
-  forall e, (e < n_err)%nat -> e <> E_NIMPL -> english_lookup (display e) = Some e.
-Proof. exact display_partial. Qed.
-Print Assumptions C23_error_display_partial.
-
-(* the English names (what the writer should print) are all read back — the repair is sound *)
+(* the English language names are all read back too *)
 Theorem C23_error_english_names :
   forall e, (e < n_err)%nat -> english_lookup (error_name 0 e) = Some e.
 Proof. exact english_names. Qed.
